@@ -404,7 +404,7 @@ Proof.
       - apply (proj1 (Val sg)). exact E0.
       - apply (proj2 (Val sg)). }
     destruct Hpre as [(Eh & EB & Ehp & x & Hx & Epre)|(Eh & Epre & Ehp)].
-    + subst hex B pre hp. cbn [app]. cbn [len length Z.of_nat] . 
+    + subst hex B pre hp. cbn [app].
       assert (L2 : (len (48 :: x :: run1) =? 0) = false).
       { rewrite !len_cons. pose proof (len_nonneg run1). destruct (Z.eqb_spec (len run1 + 1 + 1) 0); [lia | reflexivity]. }
       rewrite L2. cbn [negb Z.eqb Pos.eqb andb skipn].
